@@ -25,6 +25,8 @@ type c05World struct {
 	accs                     []chain.Account
 	env                      *fillEnv
 	rewardWithProverAndGauge bool
+	gov                      func(rt *rapid.T) // parameter changes a governance proposal can make (fork part only)
+	govChanges               int
 }
 
 func (w *c05World) refreshEnv() {
@@ -181,6 +183,12 @@ func c05Drive(rt *rapid.T, w *c05World, exec func(sdk.Msg) string, boundary func
 			m := &storagetypes.MsgPostProof{Creator: creator, Item: item, HashList: hl, Merkle: f.Merkle, Owner: f.Owner, Start: f.Start, ToProve: ch}
 			w.logf("PostProof by %s (creator spelled %q…) for %s chunk %d -> %s", short(a.Bech), creator[:6], f.id(), ch, exec(m))
 		},
+		"governance": func(rt *rapid.T) {
+			if w.gov == nil {
+				rt.Skip()
+			}
+			w.gov(rt)
+		},
 		"boundary": func(rt *rapid.T) { fail(boundary(rt)) },
 	})
 }
@@ -280,7 +288,7 @@ func TestC05(t *testing.T) {
 				}
 			}
 			// always run through the next reward height
-			for i := 0; i < n || !w.isRewardHeight(w.f.Height()); i++ {
+			for i := 0; (i < n || !w.isRewardHeight(w.f.Height())) && i < n+12; i++ {
 				dt := rapid.SampledFrom([]time.Duration{0, 6 * time.Second, time.Hour, 40 * 24 * time.Hour, 4000 * 24 * time.Hour}).Draw(rt, "dt")
 				if sig, msg := w.block(dt, rapid.Uint64Range(0, 1<<40).Draw(rt, "gas")); sig != "" {
 					return sig, msg
@@ -288,7 +296,54 @@ func TestC05(t *testing.T) {
 			}
 			return "", ""
 		}
+		// governance: a parameter-change proposal is a transaction too.  The property quantifies over messages of the custom
+		// modules, so only meaningful settings are generated (percentages stay percentages, windows stay above 1): what a
+		// chain could plausibly run with, not everything the (very permissive) parameter validators let through.
+		w.gov = func(rt *rapid.T) {
+			pct := func(label string, room int64) int64 {
+				return rapid.OneOf(rapid.SampledFrom([]int64{0, room}), rapid.Int64Range(0, room)).Draw(rt, label)
+			}
+			pick := func(label string, usual []int64) int64 {
+				if rapid.IntRange(0, 2).Draw(rt, label+"-extreme") == 0 {
+					return rapid.SampledFrom([]int64{0, 1, 2, 100, 101, 200, 1 << 20, 3_000_000_000_000, 200_000_000_000_000_000, math.MaxInt64 / 100, math.MaxInt64/100 + 1, math.MaxInt64 / 2, math.MaxInt64}).Draw(rt, label+"-value")
+				}
+				return rapid.SampledFrom(usual).Draw(rt, label)
+			}
+			if rapid.Bool().Draw(rt, "mintParams") {
+				mp := w.c.App.MintKeeper.GetParams(w.f.Ctx)
+				mp.TokensPerBlock = pick("tokensPerBlock", []int64{0, 1, 4_200_000, 1_000_000_000_000})
+				mp.StakerRatio = pct("stakerRatio", 100)
+				mp.DevGrantsRatio = pct("devRatio", 100-mp.StakerRatio)
+				mp.StorageProviderRatio = pct("providerRatio", 100-mp.StakerRatio-mp.DevGrantsRatio)
+				mp.MintDecrease = pick("mintDecrease", []int64{6, 0, 5_256_000})
+				if err := mp.Validate(); err != nil {
+					w.logf("governance: mint params %v rejected by the validator: %v", mp, err)
+					return
+				}
+				w.c.App.MintKeeper.SetParams(w.f.Ctx, mp)
+				w.logf("governance sets mint params: tokensPerBlock=%d ratios=%d/%d/%d decrease=%d", mp.TokensPerBlock, mp.StakerRatio, mp.DevGrantsRatio, mp.StorageProviderRatio, mp.MintDecrease)
+			} else {
+				sp := w.params()
+				sp.ProofWindow, sp.CheckWindow = pick("proofWindow", []int64{2, 3, 5}), pick("checkWindow", []int64{2, 3, 5})
+				sp.ChunkSize, sp.MissesToBurn = pick("chunkSize", []int64{1, 1024}), pick("missesToBurn", []int64{1, 3})
+				sp.PolRatio = pct("polRatio", 100)
+				sp.ReferralCommission = pct("referralCommission", 100-sp.PolRatio)
+				sp.PricePerTbPerMonth, sp.MaxContractAgeInBlocks = pick("pricePerTb", []int64{8, 0}), pick("maxContractAge", []int64{100, 0})
+				sp.AttestFormSize, sp.AttestMinToPass = pick("formSize", []int64{5, 0}), pick("minToPass", []int64{3, 0})
+				sp.CollateralPrice = pick("collateralPrice", []int64{1000, 2})
+				if sp.ProofWindow < 2 || sp.CheckWindow < 2 || sp.ChunkSize < 1 || sp.MissesToBurn < 1 || sp.CollateralPrice < 2 || sp.Validate() != nil {
+					w.logf("governance: storage params outside what the parameter validators accept; proposal fails")
+					return
+				}
+				w.c.App.StorageKeeper.SetParams(w.f.Ctx, sp)
+				w.logf("governance sets storage params: window=%d check=%d chunk=%d misses=%d pol=%d referral=%d price=%d age=%d form=%d/%d collateral=%d", sp.ProofWindow, sp.CheckWindow, sp.ChunkSize, sp.MissesToBurn, sp.PolRatio, sp.ReferralCommission, sp.PricePerTbPerMonth, sp.MaxContractAgeInBlocks, sp.AttestFormSize, sp.AttestMinToPass, sp.CollateralPrice)
+			}
+			w.govChanges++
+		}
 		c05Drive(rt, w, exec, boundary, fail)
+		if w.govChanges > 0 {
+			rec.Count("histories-with-governance-parameter-changes")
+		}
 		rec.Case(w.rewardWithProverAndGauge, ev.Hash(w.trace...), func() interface{} { return w.trace })
 	})
 
